@@ -196,7 +196,9 @@ def extract(configs=("lib",), verbose=False):
             for dg in data.get("diagnostics", []):
                 ok = any(h in dg.get("file", "") and m in dg.get("msg", "") for h, m in ALLOWED_DIAG)
                 if not ok:
-                    raise AnalysisBroken("front-end error in %s: %s:%s: %s" % (u[1], dg.get("file"), dg.get("line"), dg.get("msg")))
+                    err = AnalysisBroken("front-end error in %s: %s:%s: %s" % (u[1], dg.get("file"), dg.get("line"), dg.get("msg")))
+                    err.diag = {"config": u[0], "unit": u[1], "file": dg.get("file") or "", "line": dg.get("line"), "msg": dg.get("msg") or ""}
+                    raise err
                 meta["allowed_diagnostics"].append("%s: %s" % (u[1], dg.get("msg")))
             cfg = facts.setdefault(u[0], {"functions": {}, "records": {}, "globals": {}, "enums": {}})
             nf = 0
